@@ -19,6 +19,12 @@ impl<'ast> syn::visit::Visit<'ast> for Assigned {
         note(&a.left, &mut self.0);
         syn::visit::visit_expr_assign(self, a);
     }
+    fn visit_expr_reference(&mut self, r: &'ast syn::ExprReference) {
+        if r.mutability.is_some() {
+            note(&r.expr, &mut self.0);
+        }
+        syn::visit::visit_expr_reference(self, r);
+    }
     fn visit_expr_binary(&mut self, b: &'ast syn::ExprBinary) {
         use syn::BinOp::*;
         if matches!(
